@@ -72,7 +72,7 @@ func binConfig(scenario string, httpPort, udpPort, metricsPort int) string {
 	if scenario == "good-metrics" {
 		metrics = fmt.Sprintf("127.0.0.1:%d", metricsPort)
 	}
-	return fmt.Sprintf("chihaya:\n  announce_interval: 30m\n  min_announce_interval: 15m\n  metrics_addr: \"" + metrics + "\"\n  http:\n    addr: \"127.0.0.1:%d\"\n    announce_routes: [\"/announce\"]\n    scrape_routes: [\"/scrape\"]\n    read_timeout: 5s\n    write_timeout: 5s\n  udp:\n    addr: \"127.0.0.1:%d\"\n    private_key: \"verif\"\n  storage:\n    %s\n%s", httpPort, udpPort, store, pre)
+	return fmt.Sprintf("chihaya:\n  announce_interval: 30m\n  min_announce_interval: 15m\n  metrics_addr: \""+metrics+"\"\n  http:\n    addr: \"127.0.0.1:%d\"\n    announce_routes: [\"/announce\"]\n    scrape_routes: [\"/scrape\"]\n    read_timeout: 5s\n    write_timeout: 5s\n  udp:\n    addr: \"127.0.0.1:%d\"\n    private_key: \"verif\"\n  storage:\n    %s\n%s", httpPort, udpPort, store, pre)
 }
 
 func lifeBinary(c *Ctx, scenario string) {
